@@ -86,6 +86,19 @@ CHECKS = {
         design_ref="DESIGN.md 4 C06",
         note="Trusted: TLC/SANY/Json; generic-point argument for the multilinear part; float part is sampling with tolerance (floor RMS 1e-2 on numerically-zero blocks).",
     ),
+    "C08": dict(
+        engine="tlc+replay",
+        technique="TLA+ declarative spec of average/max-by-norm pooling and nearest-neighbour unpooling with PoolLaws (commutes with every g and with patch-length shifts) as TLC invariant on integer images, replayed exactly into the pooling functions and the MaxNormPool layer; normalisation / vector-neuron layers checked by a float metamorphic test with random parameters",
+        category="model_checking",
+        text=("Pooling part: TLC checks on every supplied integer image (unique per-patch norms by construction; ties make max pooling "
+              "unspecified) that AvgPoolNum, Unpool and MaxPoolNorm commute with all elements of B_d and with translations by multiples of "
+              "the patch length; geom.average_pool / max_pool, GeometricImage.{average_pool,max_pool,unpool} and ml.MaxNormPool must equal "
+              "the spec results exactly (d=2,3, k<=2, q=2,3). Normalisation / nonlinearity part (exploration): GroupNorm, LayerNorm, "
+              "VectorNeuronNonlinear, MaxNormPool with all array parameters randomised, default eps, every accepted type incl. pseudo-"
+              "scalars/vectors, group counts, generic/sparse/constant/zero inputs: f(g.x) vs g.f(x) for every g, per-block tolerance."),
+        design_ref="DESIGN.md 4 C08",
+        note="Trusted: TLC/SANY/Json. TLA+ has no sqrt/eigh: the normalisation and vector-neuron equation is sampled on the code (tolerance 1e-4, 2e-3 on the eigh path), not model-checked.",
+    ),
     "C11": dict(
         engine="tlc+replay",
         technique="TLA+ spec of the layer's emitted signature (Emitted/BiasKind) model-checked over the signature x bank-key x bias-mode lattice, and of its value (LayerOutChan) evaluated by TLC on integer cases; both replayed exactly into ml.ConvContract",
